@@ -151,6 +151,7 @@ def _prolongation(coarse, fine):
     l2gf = np.asarray(fine.local2global).astype(int)
     l2gc = np.asarray(coarse.local2global).astype(int)
     multf = np.asarray(fine.local_multipliers).astype(float)
+    multc = np.asarray(coarse.local_multipliers).astype(float)
     cen = np.array([[1 / 3], [1 / 3]])
     corners = np.array([[0.0, 1.0, 0.0], [0.0, 0.0, 1.0]])
     inner = np.array([[0.2, 0.6, 0.2], [0.2, 0.2, 0.6]])
@@ -174,6 +175,8 @@ def _prolongation(coarse, fine):
                 if multf[f, i] == 0:
                     continue
                 for j in range(3):
+                    if multc[c, j] == 0:
+                        continue  # artificial slot of a vertex without dof: it is mapped onto another dof of the element
                     P[l2gf[f, i], l2gc[c, j]] = vals[0, j, i]
             continue
         # rwg: coefficient of fine function i = flux of the coarse function through fine edge i in the fine "+" direction
@@ -238,7 +241,10 @@ def check_prolongation(desc):
     coarse = bempp_cl.api.function_space(g, kind, deg, **kw)
     fine = bempp_cl.api.function_space(gf, kind, deg, **kw)
     P, resid = _prolongation(coarse, fine)
-    if resid > 1e-11:
+    Vg = np.asarray(g.vertices)
+    hmin = float(np.sqrt(np.min(np.asarray(g.volumes))))
+    cond = float(np.max(np.abs(Vg))) / max(hmin, 1e-300)  # small elements far from the origin: coordinates carry |x|/h eps relative error
+    if resid > 1e-11 + 4e-15 * cond * 4 ** desc.get("levels", 1):
         _fail(f"nested/{kindname}/{how}", f"coarse {kindname} functions are not in the span of the fine space on {how} (expansion residual {resid:.2e}): "
               "refined grid numbering/orientation is inconsistent")
     if desc.get("nested_only"):
@@ -263,7 +269,7 @@ def check_prolongation(desc):
         else:
             Ac = og.dense(og.boundary_operator(fam, op, coarse, coarse, coarse, k, parameters=par))
             Af = og.dense(og.boundary_operator(fam, op, fine, fine, fine, k, parameters=par))
-        errs.append(og.relerr(P.T @ Af @ P, Ac))
+        errs.append(og.relerr(P.T @ Af @ P, Ac, og.entry_floor(g, fam, op)))  # e.g. the double layer vanishes identically on a flat screen
     top_thr = desc.get("top_thr", 2e-5 if how == "bary" else 2e-6)
     sig = f"prolongation/{fam}_{op}/{kindname}/{how}"
     if errs[-1] > top_thr and errs[-1] > 0.05 * errs[0]:
